@@ -47,7 +47,7 @@ NRootsOf(layout) == IF layout = 3 THEN 2 ELSE 1
 IsHopName(f) == f # "t"
 Has(layout, r, n) ==          \* root r holds a file at normalised path n
   LET d == DirIdx(Front(n))  f == n[Len(n)] IN
-  d # 0 /\ (IF f = "t" THEN r \in TRoots(layout, d) ELSE (r = 1 /\ f \in {"u"}))
+  d # 0 /\ (IF f = "t" THEN r \in TRoots(layout, d) ELSE (r = 1 /\ f \in {"u", "h"}))
 (* URI spellings: `pre` is what is written before the file name *)
 Sp(a, pre) == [abs |-> a, pre |-> pre, empty |-> FALSE]
 Spellings == <<
@@ -60,7 +60,20 @@ NSp == Len(Spellings)
 Plain(s) == ~Spellings[s].empty /\ \A k \in 1..Len(Spellings[s].pre) : Spellings[s].pre[k] \notin {"", ".", ".."}
 Kinds == {"include", "nsfile", "inherit", "getns", "gettmpl", "incfile"}
 Uri(s, fname) == [abs |-> Spellings[s].abs, segs |-> Spellings[s].pre \o <<fname>>]
-Req(w, s1, k1, s2) == [w |-> w, s1 |-> s1, k1 |-> k1, s2 |-> s2]
+(* A request: writer W in directory w carries spelling s1 in a tag / call of kind k1 (hop 1).  With s2 # 0 there is  *)
+(* a second hop of kind k2:                                                                                          *)
+(*   "include"     hop 1 reaches a file u whose <%include> carries s2;                                               *)
+(*   "out.<api>"   hop 1 (k1 = nsfile / getns) yields a namespace h for helper H; the writer then calls              *)
+(*                 h.get_template(s2) / h.include_file(s2) / h.get_namespace(s2): resolved THROUGH namespace h;      *)
+(*   "in.<api>"    the writer calls h.show(); H's def show calls self.get_template / local.include_file /            *)
+(*                 local.get_namespace with s2 (inside a def reached through h, self/local ARE h).                   *)
+(* In every case s2, if relative, resolves against the URI of H (the template it is written in, resp. the            *)
+(* template of the namespace it is resolved through) -- i.e. the URI hop 1 looked up.                                *)
+Req5(w, s1, k1, s2, k2) == [w |-> w, s1 |-> s1, k1 |-> k1, s2 |-> s2, k2 |-> k2]
+Req(w, s1, k1, s2) == Req5(w, s1, k1, s2, IF s2 = 0 THEN "none" ELSE "include")
+ApiKinds == {"out.gettmpl", "out.incfile", "out.getns", "in.gettmpl", "in.incfile", "in.getns"}
+HopFile(r) == IF r.s2 = 0 THEN "t" ELSE IF r.k2 = "include" THEN "u" ELSE "h"
+ApiSp == {1, 2, 3, 5, 8, 11, 12, 13}          \* quick tier: spellings used for the namespace-API hops
 UriConfigs ==
   LET W == 1..Len(Dirs)  S == 1..NSp  L == 1..3 IN
   (* single requests: every kind of tag *)
@@ -73,6 +86,11 @@ UriConfigs ==
   (* two hops: W -> u (spelling s1) -> t (spelling s2) *)
   \cup {[fam |-> "uri", layout |-> l, reqs |-> <<Req(w, s, "include", s2)>>] :
           l \in (IF Tier = "quick" THEN {1} ELSE L), w \in W, s \in {z \in S : ~Spellings[z].empty}, s2 \in {z \in S : ~Spellings[z].empty}}
+  (* two hops through the Namespace API: W -> namespace of H (spelling s1) -> t (spelling s2 resolved through H) *)
+  \cup {[fam |-> "uri", layout |-> l, reqs |-> <<Req5(w, s, k, s2, k2)>>] :
+          l \in {1, 2}, w \in W, k \in {"nsfile", "getns"}, k2 \in ApiKinds,
+          s \in (IF Tier = "quick" THEN ApiSp ELSE {z \in S : ~Spellings[z].empty}),
+          s2 \in (IF Tier = "quick" THEN ApiSp ELSE ApiSp \cup {4, 6, 15, 17})}
 
 (* ------------------------------------------------------------------ the other families *)
 Names == {"p", "q"}
@@ -103,7 +121,7 @@ Resolve ==
   /\ LET r == cfg.reqs[pc]
          rel == IF hop = 1 THEN EntryUri(r) ELSE cur
          s == IF hop = 1 THEN r.s1 ELSE r.s2
-         fname == IF hop = 1 /\ r.s2 # 0 THEN "u" ELSE "t"
+         fname == IF hop = 1 THEN HopFile(r) ELSE "t"
          nextreq == /\ pc' = pc + 1 /\ hop' = 1 /\ cur' = <<>>
      IN IF Spellings[s].empty
         THEN /\ out' = Append(out, "exc|lookup") /\ memo' = memo /\ nextreq          \* "" names nothing
@@ -112,7 +130,7 @@ Resolve ==
                  root == Locate(looked, NRootsOf(cfg.layout), HasL)
              IN /\ memo' = MemoAfter(memo, u, rel)
                 /\ IF root = 0 THEN /\ out' = Append(out, "exc|lookup") /\ nextreq
-                   ELSE IF fname = "u" THEN /\ out' = out /\ hop' = 2 /\ cur' = looked /\ pc' = pc
+                   ELSE IF fname # "t" THEN /\ out' = out /\ hop' = 2 /\ cur' = looked /\ pc' = pc
                    ELSE /\ out' = Append(out, Marker(Norm(looked), root)) /\ nextreq
   /\ UNCHANGED <<cfg, imp, sattr, phase>>
 
@@ -179,9 +197,11 @@ Toks == {out[k] : k \in 1..Len(out)}
 (* what a request must yield, stated directly: relative against the writer's directory, absolute against the root *)
 ExpectHop(rel, s, fname) ==
   IF Spellings[s].abs THEN Spellings[s].pre \o <<fname>> ELSE Front(rel) \o Spellings[s].pre \o <<fname>>
+(* hop 1: against the writer's own URI; hop 2: against the URI of the template hop 1 reached -- the template the  *)
+(* second URI is written in (include / in.<api>) or whose namespace it is resolved through (out.<api>)          *)
 ExpectReq(r) ==
   IF Spellings[r.s1].empty THEN "exc|lookup"
-  ELSE LET u1 == ExpectHop(EntryUri(r), r.s1, IF r.s2 = 0 THEN "t" ELSE "u")
+  ELSE LET u1 == ExpectHop(EntryUri(r), r.s1, HopFile(r))
            r1 == Locate(u1, NRootsOf(cfg.layout), HasL) IN
        IF r1 = 0 THEN "exc|lookup"
        ELSE IF r.s2 = 0 THEN Marker(Norm(u1), r1)
